@@ -2,8 +2,13 @@
 
 Two parts.
 
-(C) full product image x centre x radii x mask x error x method (x units) for
-    ``CurveOfGrowth`` and ``RadialProfile`` against an independent reference:
+(C) full product image x centre x radii x (user mask x non-finite input x
+    cover) x error x method (x units) for ``CurveOfGrowth`` and
+    ``RadialProfile``; non-finite pixels (NaN, +inf, -inf in the data; NaN,
+    +inf in the error map at pixels with finite data; both) occur without a
+    user mask, with a user mask that does not cover them and with one that
+    does -- they are documented to be masked automatically, so the reference
+    masks them in every combination.  Against an independent reference:
     pixel weights of every circle (polygon-disk line integral for 'exact',
     counted (sub)pixel centres for 'center'/'subpixel', ties judged with their
     ambiguity), flux = sum w*d over unmasked finite pixels, area = sum w,
@@ -14,7 +19,12 @@ Two parts.
 
 (A) explicit-state BFS (mcphot.explorer) over histories of
     normalize('max') / normalize('sum') / unnormalize() / first reads of
-    profile, profile_error, data_profile on the real object: in every state
+    profile, profile_error, data_profile and (CurveOfGrowth) array-valued
+    calls of calc_ee_at_radius(sampled radii) / calc_radius_at_ee(curve values
+    on the increasing prefix) on the real object: each interpolator call must
+    return what a fresh object in the same normalisation state has (the curve
+    of that state / the sampled radii), in every CurveOfGrowth state the
+    round-trip clause is judged again, and in every state
     profile and profile_error equal raw / (product of the normalisations) and
     whenever the object is un-normalised ALL arrays (profile, profile_error,
     data_profile, area, radius) equal those of a fresh object (normalize
@@ -38,19 +48,31 @@ PROPERTY = 'C19'
 LEVEL = 'exploration'
 RULE = ('(C) full product: image {non-negative, signed, constant, ring} x centre {middle, half-pixel, generic, 2 px '
         'from the edge, 1 px outside} x radii {integers from 0, integers from 1, non-uniform from 0, 20 fine steps} x '
-        'mask {none, wedge, non-finite pixels} x error {none, map} x method {exact, center, subpixel 5, subpixel 2} '
+        'error {none, map} x [user mask {none, wedge} x non-finite input {none, data (NaN, +inf, -inf pixels), error map '
+        '(NaN, +inf at pixels with finite data), both} x cover {non-finite pixels outside the user mask, also True in '
+        'the user mask}] (16 existing combinations: non-finite error needs an error map, cover needs a user mask and '
+        'non-finite pixels; the reference masks user mask | non-finite data | non-finite error) x method {exact, '
+        'center, subpixel 5, subpixel 2} '
         'x class {CurveOfGrowth, RadialProfile} (+ units on the exact method); a case is non-trivial when the '
         'largest circle is cut by the image edge or by masked pixels, or the radii are not uniform. '
-        '(A) BFS over histories of normalize(max|sum)/unnormalize/first reads from the full product of roots class '
+        '(A) BFS over histories of normalize(max|sum)/unnormalize/first reads/(CurveOfGrowth) calc_ee_at_radius(all '
+        'sampled radii)/calc_radius_at_ee(curve values on the strictly increasing prefix) from the full product of roots class '
         '{RadialProfile, CurveOfGrowth} x error map {yes, no} x units {no, yes} x image {positive (max>0, sum>0), '
         'all-negative (max<0, sum<0), positive core on a negative pedestal (max>0, sum<0), all-zero (cannot be '
         'normalised: no-op), positive with a fully masked annulus (NaN bin)} = 40 roots; in every state profile, '
         'profile_error, (data_profile when un-normalised), area and radius are compared with the fresh object '
-        'scaled by the product of the (signed) normalisation constants; a history is non-trivial when it contains a '
-        'normalize (and the root can be normalised); states are digests of the complete instance __dict__.')
+        'scaled by the product of the (signed) normalisation constants; an interpolator call must return the curve of '
+        'the current normalisation state / the sampled radii, and in every CurveOfGrowth state '
+        'calc_radius_at_ee(calc_ee_at_radius(r_i)) = r_i on the strictly increasing prefix of the curve shown in that '
+        'state; a history is non-trivial when it contains a '
+        'normalize (and the root can be normalised); states are digests of the complete instance __dict__ (helper '
+        'objects of scipy kept on the instance, e.g. a cached interpolator, enter with their knots and coefficients).')
 ASSUMPTIONS = ['numpy, scipy PchipInterpolator are trusted; photutils.geometry kernels are NOT used by the reference',
                'exact-method weights of photutils are accurate to 1e-8 per pixel (C01 decides that)',
-               'a state of a profile object is its __dict__; equal digests have equal futures',
+               'a state of a profile object is its __dict__ (a scipy helper object stored there counts with its own '
+               '__dict__ and public knots/coefficients x, c, extrapolate, axis); equal digests have equal futures',
+               'non-finite pixels of the data or of the error map are documented to be masked automatically, with or '
+               'without a user mask: the reference treats them exactly like user-masked pixels',
                'while a profile is normalised by a NEGATIVE constant the sign of profile_error is not specified by the '
                'property: only its magnitude is compared in normalised states; after unnormalize every array must '
                'equal the fresh one, sign included']
@@ -62,8 +84,15 @@ RADII = {'int0': [0, 1, 2, 3, 4, 5, 6, 7], 'int1': [1, 2, 3, 4, 5, 6, 7], 'nonun
          'fine': [round(0.1 + 0.1 * k, 10) for k in range(20)]}
 RADII_THOROUGH = dict(RADII, wide=[0, 2, 5, 9, 12.5], fine2=[round(0.25 * k, 10) for k in range(1, 25)])
 IMAGES = ('nonneg', 'signed', 'const', 'ring')
-MASKS = ('none', 'wedge', 'nonfinite')
+MASKS = ('none', 'wedge')                          # the user's mask argument
+NONFINITE = ('none', 'data', 'error', 'both')      # which input carries non-finite pixels (documented: masked automatically)
+COVER = ('uncovered', 'covered')                   # are the non-finite pixels also True in the user's mask ('-' when not applicable)
 ERRORS = ('none', 'map')
+# (dy, dx) from the pixel nearest the centre, value.  Every offset has dy <= -1: the pixel lies below the centre, so it
+# is never inside the wedge mask (polar angle 0.3 .. 1.4 rad) nor the extra wedge pixel (dy = 0); the pixels are distinct
+# for every centre of the alphabet (asserted), so a non-finite ERROR pixel always has finite data.
+BAD_DATA = (((-1, 2), float('nan')), ((-2, -1), float('inf')), ((-3, -2), float('-inf')))
+BAD_ERROR = (((-1, -1), float('nan')), ((-4, 1), float('inf')))
 METHODS = {'exact': ('exact', 5), 'center': ('center', 5), 'subpixel5': ('subpixel', 5), 'subpixel2': ('subpixel', 2)}
 CONST = 3.25
 
@@ -92,31 +121,60 @@ def make_error(seed):
     return 1.0 + rng_for(seed, 2).random(SHAPE)
 
 
-def make_mask(mvar, cname, data, error):
-    """-> (mask argument or None, data, error, effective reference mask)."""
+def bad_pixels(cname, offsets):
     ny, nx = SHAPE
+    xc, yc = CENTRES[cname]
+    return [((min(max(int(round(yc)) + dy, 0), ny - 1), min(max(int(round(xc)) + dx, 0), nx - 1)), v)
+            for (dy, dx), v in offsets]
+
+
+def mask_configs(evar):
+    """Full product user mask x non-finite input x cover, restricted to the combinations that exist: non-finite
+    error needs an error map; 'cover' needs a user mask and non-finite pixels."""
+    for mvar in MASKS:
+        for nf in NONFINITE:
+            if nf in ('error', 'both') and evar == 'none':
+                continue
+            for cv in (COVER if (mvar != 'none' and nf != 'none') else ('-',)):
+                yield mvar, nf, cv
+
+
+def make_mask(case, data, error):
+    """-> (mask argument or None, data, error, effective reference mask = user mask | non-finite data | non-finite error)."""
+    ny, nx = SHAPE
+    cname = case['centre']
     yy, xx = np.mgrid[0:ny, 0:nx]
     xc, yc = CENTRES[cname]
-    if mvar == 'none':
-        return None, data, error, np.zeros(SHAPE, bool)
-    if mvar == 'wedge':
+    user = None
+    if case['mask'] == 'wedge':
         ang = np.arctan2(yy - yc, xx - xc)
-        m = (ang > 0.3) & (ang < 1.4) & (np.hypot(xx - xc, yy - yc) > 1.2)
-        m[min(max(int(round(yc)), 0), ny - 1), min(max(int(round(xc)) + 1, 0), nx - 1)] = True
-        return m.copy(), data, error, m
-    # non-finite pixels are masked automatically (data and error)
-    data = data.copy()
+        user = (ang > 0.3) & (ang < 1.4) & (np.hypot(xx - xc, yy - yc) > 1.2)
+        user[min(max(int(round(yc)), 0), ny - 1), min(max(int(round(xc)) + 1, 0), nx - 1)] = True
+    elif case['mask'] != 'none':
+        raise ValueError(case['mask'])
+    nf = case.get('nonfinite', 'none')
     bad = np.zeros(SHAPE, bool)
-    px = [(int(round(yc)) + 1, int(round(xc)) + 2), (int(round(yc)) - 2, int(round(xc)) - 1), (int(round(yc)), int(round(xc)) + 4)]
-    px = [(min(max(y, 0), ny - 1), min(max(x, 0), nx - 1)) for y, x in px]
-    data[px[0]] = np.nan
-    data[px[1]] = np.inf
-    bad[px[0]] = bad[px[1]] = True
-    if error is not None:
+    pd = bad_pixels(cname, BAD_DATA) if nf in ('data', 'both') else []
+    pe = bad_pixels(cname, BAD_ERROR) if nf in ('error', 'both') else []
+    if pe and error is None:
+        raise ValueError('non-finite error pixels need an error map')
+    if pd:
+        data = data.copy()
+    if pe:
         error = error.copy()
-        error[px[2]] = np.nan
-        bad[px[2]] = True
-    return None, data, error, bad
+    for (y, x), v in pd:
+        data[y, x] = v
+        bad[y, x] = True
+    for (y, x), v in pe:
+        error[y, x] = v
+        bad[y, x] = True
+    if int(bad.sum()) != len(pd) + len(pe) or (user is not None and (user & bad).any()):
+        raise RuntimeError(f'{cname}: non-finite pixels collide with each other or with the wedge')
+    if user is None:
+        return None, data, error, bad
+    if case.get('cover') == 'covered':
+        user = user | bad
+    return user.copy(), data, error, user | bad
 
 
 class Ref:
@@ -171,7 +229,7 @@ def build_obj(cls, case, seed):
     import astropy.units as u
     data = make_image(case['image'], case['centre'], seed)
     error = make_error(seed) if case['error'] == 'map' else None
-    mask, data, error, bad = make_mask(case['mask'], case['centre'], data, error)
+    mask, data, error, bad = make_mask(case, data, error)
     d_in, e_in = data, error
     if case.get('unit'):
         d_in = data * u.Jy
@@ -228,7 +286,13 @@ def check_profile(acc, case, seed, refs):
     F, tF, A, tA = map(np.array, (F, tF, A, tA))
     V, tV = np.array(V), np.array(tV)
     site0 = f'{case["cls"]}:{METHODS[case["method"]][0]}'
-    pred = ('masked' if case['mask'] != 'none' else ('cut-by-edge' if case['centre'] in ('edge2', 'outside') else 'interior'))
+    nf = case.get('nonfinite', 'none')
+    if nf != 'none':
+        # which input is non-finite and whether a user mask is present as well (the automatic masking takes a
+        # different path through the mask combination then)
+        pred = f'nonfinite-{nf}' + ('' if case['mask'] == 'none' else f'+usermask-{case.get("cover")}')
+    else:
+        pred = ('masked' if case['mask'] != 'none' else ('cut-by-edge' if case['centre'] in ('edge2', 'outside') else 'interior'))
 
     def cmp(name, got, want, tol, sel=None):
         if got.shape != want.shape:
@@ -296,43 +360,57 @@ def check_profile(acc, case, seed, refs):
 
 
 def check_ee(acc, case, obj, prof, radii):
-    """calc_radius_at_ee(calc_ee_at_radius(r_i)) == r_i on the maximal strictly increasing prefix."""
+    """(C): the round-trip clause on the freshly built object of a product case."""
+    def report(clause, site, observed=None, expected=None, detail=''):
+        acc.violation(clause, site, case, observed, expected, detail)
+    if ee_roundtrip(obj, prof, radii, report, acc.skip):
+        acc.counters['ee_roundtrips'] += 1
+
+
+def monotone_prefix(prof):
+    """-> m: indices 0..m are the maximal strictly increasing prefix of the curve."""
     d = np.diff(prof) > 0
-    m = len(prof) - 1 if d.all() else int(np.argmin(d))       # prefix = indices 0..m
+    return len(prof) - 1 if d.all() else int(np.argmin(d))
+
+
+def ee_roundtrip(obj, prof, radii, report, skip):
+    """calc_radius_at_ee(calc_ee_at_radius(r_i)) == r_i on the maximal strictly increasing prefix of ``prof`` (the
+    object's current profile values).  -> True when the round trip was judged."""
+    m = monotone_prefix(prof)
     if m + 1 < 2:
-        acc.skip('ee: curve not increasing at the smallest radii (documented ValueError)')
-        return
+        skip('ee: curve not increasing at the smallest radii (documented ValueError)')
+        return False
     p = prof[:m + 1]
     # well-posedness rule (on the input curve): every step of the prefix rises by at least 1e-6 of the maximum
     if np.min(np.diff(p)) < 1e-6 * np.max(np.abs(p)):
-        acc.skip('ee: nearly flat step in the monotone prefix (inverse interpolation ill-conditioned)')
-        return
-    acc.counters['ee_roundtrips'] += 1
+        skip('ee: nearly flat step in the monotone prefix (inverse interpolation ill-conditioned)')
+        return False
     for i in range(m + 1):
         r = radii[i]
         try:
             ee = float(obj.calc_ee_at_radius(r))
         except Exception as e:
-            acc.violation('ee-raises', f'calc_ee_at_radius:{type(e).__name__}', case, repr(e), None)
-            return
+            report('ee-raises', f'calc_ee_at_radius:{type(e).__name__}', repr(e), None)
+            return True
         if not (abs(ee - prof[i]) <= 8 * EPS * abs(prof[i])):
-            acc.violation('ee-at-sample', 'calc_ee_at_radius', case, ee, prof[i], f'interpolator does not pass through sample {i}')
+            report('ee-at-sample', 'calc_ee_at_radius', ee, prof[i], f'interpolator does not pass through sample {i}')
             continue
         if ee < p[0] or ee > p[-1]:
-            acc.skip('ee: sample value left the prefix range by rounding (documented NaN)')
+            skip('ee: sample value left the prefix range by rounding (documented NaN)')
             continue
         where = 'last-monotone-point' if i == m else ('first-point' if i == 0 else 'interior-point')
         try:
             back = float(obj.calc_radius_at_ee(ee))
         except Exception as e:
-            acc.violation('ee-roundtrip', 'last-monotone-point' if m + 1 == 2 else f'raises:{type(e).__name__}', case,
-                          repr(e), r, f'monotone prefix has {m + 1} samples; calc_radius_at_ee raised')
-            return
+            report('ee-roundtrip', 'last-monotone-point' if m + 1 == 2 else f'raises:{type(e).__name__}',
+                   repr(e), r, f'monotone prefix has {m + 1} samples; calc_radius_at_ee raised')
+            return True
         # PCHIP through (p_j, r_j) evaluated within 8 eps of a knot: |dr| <= 3 max(dr/dp) 8 eps |p| <= 3*8*eps*1e6*dr
         # = 5e-9 dr with the rule above -> 1e-7 (1 + r_max)
         if not (abs(back - r) <= 1e-7 * (1 + radii[-1])):
-            acc.violation('ee-roundtrip', where, case, back, r,
-                          f'sample {i} of the strictly increasing prefix 0..{m}: radius_at_ee(ee_at_radius(r)) != r')
+            report('ee-roundtrip', where, back, r,
+                   f'sample {i} of the strictly increasing prefix 0..{m}: radius_at_ee(ee_at_radius(r)) != r')
+    return True
 
 
 # ---------------------------------------------------------------------------- (A) histories
@@ -385,6 +463,24 @@ def _h_new(root, seed):
     return cls(data, (6.2, 5.1), radii, error=err, mask=mask)
 
 
+def _helper_state(v, depth=0):
+    """scipy helper objects -> plain data (their __dict__, recursively, plus the public knots / coefficients)."""
+    import types
+    if isinstance(v, types.ModuleType):
+        return ('module', v.__name__)
+    mod = type(v).__module__ or ''
+    if not (mod.startswith('scipy.') and hasattr(v, '__dict__') and depth < 4):
+        return v
+    items = {k: _helper_state(x, depth + 1) for k, x in vars(v).items()}
+    for a in ('x', 'c', 'extrapolate', 'axis'):
+        if a not in items:
+            try:
+                items[f'attr:{a}'] = _helper_state(getattr(v, a), depth + 1)
+            except Exception:
+                pass
+    return ('helper-object', f'{mod}.{type(v).__qualname__}', items)
+
+
 class HState:
     __slots__ = ('obj', 'norm', 'nops')
 
@@ -393,6 +489,8 @@ class HSystem:
     def __init__(self, root, seed, tier):
         self.root, self.seed, self.tier = root, seed, tier
         self.names = ['profile', 'profile_error'] + (['data_profile'] if ROOTS[root]['cls'] == 'rp' else [])
+        self.cog = ROOTS[root]['cls'] == 'cog'
+        self.skip = lambda reason: None       # run_unit / replay put acc.skip here
         fresh = _h_new(root, seed)
         self.raw = {n: getattr(fresh, n) for n in self.names + ['area', 'radius']}
         self.unit = getattr(self.raw['profile'], 'unit', None)
@@ -411,10 +509,16 @@ class HSystem:
         return st
 
     def canon(self, st):
-        return state_key(dict(st.obj.__dict__))
+        # a helper object kept on the instance (e.g. a cached interpolator) is known to snapshot.digest by its type
+        # only, which would merge an up-to-date with a stale one: it is replaced by its own state (knots, coefficients)
+        return state_key({k: _helper_state(v) for k, v in st.obj.__dict__.items()})
 
     def ops(self, st):
         ops = [('normalize', 'max'), ('normalize', 'sum'), ('unnormalize',)] + [('read', n) for n in self.names]
+        if self.cog:
+            # the two encircled-energy interpolators, called with arrays: at every sampled radius / at the curve's
+            # own values on its strictly increasing prefix
+            ops += [('ee_at_radius',), ('radius_at_ee',)]
         if self.tier == 'thorough':
             ops.append(('read', 'area'))
         return ops
@@ -456,11 +560,59 @@ class HSystem:
             report('restores-unit', site, str(u_got), str(self.unit))
         return True
 
+    def _ee_at_radius(self, st, report):
+        """calc_ee_at_radius(all sampled radii) == the curve of this normalisation state (the interpolator passes
+        through its samples, whatever was called before)."""
+        radii = _val(self.raw['radius'])
+        got = _val(st.obj.calc_ee_at_radius(radii.copy()))
+        want = self._expect(st, 'profile')
+        # the values of the state carry <= 4 ulp per normalize/unnormalize (as in _cmp); a PCHIP piece evaluated at
+        # its own knot adds a few roundings of terms bounded by the step of the curve: 64 eps max|curve|
+        tol = 4 * EPS * (st.nops + 2) * np.abs(want) + 64 * EPS * float(np.max(np.abs(want)))
+        state = 'normalized' if st.norm else 'unnormalized'
+        if got.shape != want.shape or not (np.abs(got - want) <= tol).all():
+            report('ee-at-sample', f'calc_ee_at_radius:history:{state}', got.tolist(), want.tolist(),
+                   f'calc_ee_at_radius(sampled radii) != profile of a fresh object scaled by 1 / {self._factor(st)!r}')
+
+    def _radius_at_ee(self, st, report):
+        """calc_radius_at_ee(curve values on the strictly increasing prefix) == the sampled radii there."""
+        obj = st.obj
+        state = 'normalized' if st.norm else 'unnormalized'
+        prof = obj.profile
+        if not self._cmp(st, 'profile', prof, report, f'profile:{state}'):
+            return
+        p = _val(prof)
+        radii = _val(self.raw['radius'])
+        m = monotone_prefix(p)
+        if m + 1 < 2:
+            # documented: ValueError when the curve does not rise even at the smallest radii
+            try:
+                obj.calc_radius_at_ee(p.copy())
+            except ValueError:
+                pass
+            return
+        if np.min(np.diff(p[:m + 1])) < 1e-6 * np.max(np.abs(p[:m + 1])):
+            return      # ill-conditioned inverse (same rule as the round trip; counted as skipped by invariant())
+        back = _val(obj.calc_radius_at_ee(p[:m + 1].copy()))
+        want = radii[:m + 1]
+        # the arguments ARE the knots of the inverse interpolator (no conditioning term): exact up to the rounding of
+        # one cubic piece whose terms are bounded by the radius step: 64 eps (1 + r_max); worst seen on the
+        # unchanged tree over seeds 0-2: 0.7 eps (1 + r_max)
+        if back.shape != want.shape or not (np.abs(back - want) <= 64 * EPS * (1 + radii[-1])).all():
+            report('radius-at-ee', f'calc_radius_at_ee:history:{state}', back.tolist(), want.tolist(),
+                   f'calc_radius_at_ee(profile[0..{m}]) != radius[0..{m}] (strictly increasing prefix)')
+
     def apply(self, st, op, report):
         obj = st.obj
         try:
             with warnings.catch_warnings():
                 warnings.simplefilter('ignore')
+                if op[0] == 'ee_at_radius':
+                    self._ee_at_radius(st, report)
+                    return True
+                if op[0] == 'radius_at_ee':
+                    self._radius_at_ee(st, report)
+                    return True
                 if op[0] == 'read':
                     val = getattr(obj, op[1])
                     if op[1] == 'data_profile' and st.norm:
@@ -506,6 +658,16 @@ class HSystem:
                     report('read-raises', f'{name}:{type(e).__name__}', repr(e), 'a value')
                     continue
                 self._cmp(st, name, val, report, f'{name}:{"normalized" if st.norm else "unnormalized"}')
+            if self.cog:
+                # the round-trip clause holds in every state (on the curve the object shows in that state)
+                state = 'normalized' if st.norm else 'unnormalized'
+
+                def rep(clause, site, observed=None, expected=None, detail=''):
+                    report(clause, f'{site}:history:{state}', observed, expected, detail)
+                try:
+                    ee_roundtrip(st.obj, _val(st.obj.profile), _val(self.raw['radius']), rep, self.skip)
+                except Exception as e:
+                    report('read-raises', f'ee-roundtrip:{type(e).__name__}', repr(e), 'a value')
 
 
 def h_depth(tier):
@@ -516,15 +678,16 @@ def h_depth(tier):
 def product_cases(tier, cname, mname):
     for image in IMAGES:
         for rname in (RADII_THOROUGH if tier == 'thorough' else RADII):
-            for mvar in MASKS:
-                for evar in ERRORS:
+            for evar in ERRORS:
+                for mvar, nf, cv in mask_configs(evar):
                     for cls in ('cog', 'rp'):
                         if cls == 'cog' and rname == 'int0':
                             continue        # identical to int1 once the leading 0 is dropped
                         units = (False, True) if (mname == 'exact' and image == 'nonneg') else (False,)
                         for un in units:
                             yield {'kind': 'profile', 'cls': cls, 'image': image, 'centre': cname, 'radii': rname,
-                                   'mask': mvar, 'error': evar, 'method': mname, 'unit': un}
+                                   'mask': mvar, 'nonfinite': nf, 'cover': cv, 'error': evar, 'method': mname,
+                                   'unit': un}
 
 
 def plan(tier, seed):
@@ -533,7 +696,7 @@ def plan(tier, seed):
         for mname in METHODS:
             units.append({'kind': 'product', 'centre': cname, 'method': mname})
     for root in ROOTS:
-        nops = 6 if ROOTS[root]['cls'] == 'rp' else 5
+        nops = 6 if ROOTS[root]['cls'] == 'rp' else 7        # = len(HSystem.ops) of the quick tier
         nops += 1 if tier == 'thorough' else 0
         for i in range(nops):
             units.append({'kind': 'history', 'root': root, 'first': [i]})
@@ -548,6 +711,7 @@ def run_unit(unit, tier, seed):
             check_profile(acc, case, seed, refs)
     else:
         sysm = HSystem(unit['root'], seed, tier)
+        sysm.skip = acc.skip
         explore(sysm, h_depth(tier), acc, first_ops=unit['first'], extra={'kind': 'history', 'root': unit['root']},
                 root_check=(unit['first'][0] == 0))
     return acc
@@ -564,6 +728,7 @@ def replay(case, seed):
         check_profile(acc, case, seed, refs)
         return acc
     sysm = HSystem(case['root'], seed, 'thorough')
+    sysm.skip = acc.skip
     hist = _tup(case['history'])
     extra = {k: v for k, v in case.items() if k != 'history'}
     if hist:
@@ -577,12 +742,22 @@ def replay(case, seed):
 
 def describe(tier, seed):
     return {'alphabet': {'image shape': list(SHAPE), 'images': list(IMAGES), 'centres (x, y)': {k: list(v) for k, v in CENTRES.items()},
-                         'radii': RADII_THOROUGH if tier == 'thorough' else RADII, 'mask': list(MASKS), 'error': list(ERRORS), 'methods': list(METHODS),
+                         'radii': RADII_THOROUGH if tier == 'thorough' else RADII, 'user mask': list(MASKS), 'non-finite input': list(NONFINITE),
+                         'cover (user mask and non-finite pixels present)': list(COVER),
+                         'mask combinations per error variant': {e: ['/'.join(c) for c in mask_configs(e)] for e in ERRORS},
+                         'non-finite data pixels (dy, dx from the pixel nearest the centre)': [[list(o), repr(v)] for o, v in BAD_DATA],
+                         'non-finite error pixels (finite data there)': [[list(o), repr(v)] for o, v in BAD_ERROR],
+                         'error': list(ERRORS), 'methods': list(METHODS),
                          'classes': ['CurveOfGrowth', 'RadialProfile'], 'units': 'on/off for method exact x image nonneg'},
             'bound': {'history depth': h_depth(tier), 'roots': list(ROOTS),
                       'root axes': {'class': ['rp', 'cog'], 'error map': [True, False], 'units': [False, True],
                                     'image (sign of profile max, sign of profile sum)': {k: list(v) for k, v in H_SIGNS.items()}},
                       'compared in every state': ['profile', 'profile_error', 'data_profile (un-normalised states)',
-                                                  'area', 'radius', 'normalization_value'],
+                                                  'area', 'radius', 'normalization_value',
+                                                  'CurveOfGrowth: calc_radius_at_ee(calc_ee_at_radius(r_i)) = r_i on the '
+                                                  'strictly increasing prefix'],
                       'ops': ['normalize(max)', 'normalize(sum)', 'unnormalize()', 'read profile', 'read profile_error',
-                              'read data_profile (RadialProfile)'] + (['read area'] if tier == 'thorough' else [])}}
+                              'read data_profile (RadialProfile)',
+                              'calc_ee_at_radius(all sampled radii) (CurveOfGrowth)',
+                              'calc_radius_at_ee(profile on its strictly increasing prefix) (CurveOfGrowth)']
+                      + (['read area'] if tier == 'thorough' else [])}}
